@@ -305,9 +305,15 @@ class EditHooks(SysHooks):
             else:
                 sm.assign(node.target, elem, s0, node.lineno)
             outs = []
+            tnames = [y.id for y in ast.walk(node.target) if isinstance(y, ast.Name)]
             for s2, status in sm.block(node.body, s0):
                 if status is None or status[0] in ("continue", "break"):
                     s2.events.append(("endloop", node.lineno))
+                    # after the loop its variable holds the *last* element (or the one it broke at), not the arbitrary one of the body
+                    if status is None or status[0] == "continue":
+                        for tn in tnames:
+                            if tn in s2.env:
+                                s2.env[tn] = Sym(("last", vkey(s2.env[tn])))
                     outs.append((s2, None))
                 else:
                     outs.append((s2, status))
